@@ -137,6 +137,140 @@ PROPS["C08"] = {
     "harnesses": _c08,
 }
 
+PEST = "pest::iterators::Pair::as_span and pest::Span::start -> return the byte offset chosen by the harness (a real pest Pair cannot be built inside CBMC; the native replay builds one with pest::state and runs the unstubbed code)"
+PROPS["C14"] = {
+    "title": "reported source positions are exact line and column numbers (position calculator)",
+    "files": ["parser/src/pos.rs"],
+    "funcs": ["PositionCalculator::new, PositionCalculator::step (parser/src/pos.rs) - the function that stamps every AST node"],
+    "claim": "for every input of up to 4 scalar values over the alphabet and every two successive tokens at non-decreasing scalar-value "
+             "offsets, PositionCalculator::step returns the 1-based line and column of the token, where LF, CR LF and a lone CR each "
+             "end a line and columns count Unicode scalar values (reference counter in the harness)",
+    "not_covered": "that each AST node is stamped with the position of ITS token (pest tree walk), positions inside pest syntax errors "
+                   "(computed by pest), validation/execution error locations (copied from nodes); inputs longer than 4 scalar values",
+    "assumptions": [],
+    "harnesses": [
+        H("c14::c14_pos_narrow3", crate="hp", unwind=6, stubs=[PEST], bounds="3 scalar values over {CR, LF, a}; 2 tokens at any offsets a <= b"),
+        H("c14::c14_pos_narrow4", crate="hp", unwind=7, stubs=[PEST], bounds="4 scalar values over {CR, LF, a}; 2 tokens"),
+        H("c14::c14_pos_wide3", crate="hp", unwind=6, stubs=[PEST], bounds="3 scalar values over {CR, LF, a, TAB, ',', '#', U+00E9, U+1F600, U+FEFF}; 2 tokens"),
+        H("c14::c14_pos_wide4", crate="hp", unwind=7, stubs=[PEST], bounds="4 scalar values over the 9-character alphabet; 2 tokens"),
+    ],
+}
+
+PROPS["C13"] = {
+    "title": "the parser builds the tree the document denotes (string decoding kernels only)",
+    "files": ["parser/src/parse/utils.rs", "parser/src/graphql.pest"],
+    "funcs": ["parse::utils::string_value (called by parse_string on the text matched by the grammar rule string_content)"],
+    "claim": "for EVERY ASCII text of 1..4 bytes that the grammar rule string_content admits (reference recogniser of the rule in the "
+             "harness) string_value returns exactly the StringValue the GraphQL spec defines (all eight simple escapes, raw characters) and "
+             "does not panic; every non-ASCII scalar value (2-4 bytes) passes through unchanged",
+    "not_covered": "the pest grammar and the tree builders, i.e. WHICH documents are accepted (1 symbolic byte through parse_query does not "
+                   "finish); \\uXXXX escapes (6-byte inputs exhaust 50 GB); block strings (block_string_value does not finish for 2-byte "
+                   "inputs in 10 min); operation/fragment uniqueness, the 64-level limit, type expressions",
+    "assumptions": ["input is grammar-valid string content (the grammar guarantees it before the call); the recogniser is part of the oracle"],
+    "harnesses": [
+        H("c13::c13_string_ascii1", crate="hp", unwind=3, bounds="every grammar-valid ASCII string content of 1 byte"),
+        H("c13::c13_string_ascii2", crate="hp", unwind=4, cls="L", mem_gb=6, timeout_s=600, bounds="every grammar-valid ASCII string content of 2 bytes"),
+        H("c13::c13_string_ascii3", crate="hp", unwind=5, cls="L", mem_gb=12, timeout_s=900, bounds="every grammar-valid ASCII string content of 3 bytes"),
+        H("c13::c13_string_ascii4", crate="hp", unwind=6, cls="L", mem_gb=20, timeout_s=1500, tiers=("thorough",), bounds="every grammar-valid ASCII string content of 4 bytes"),
+        H("c13::c13_string_nonascii", crate="hp", unwind=6, cls="L", mem_gb=20, timeout_s=1500, tiers=("thorough",), bounds="every non-ASCII Unicode scalar value, followed by 'z' when shorter than 4 bytes"),
+    ],
+}
+
+PROPS["C15"] = {
+    "title": "values print as GraphQL literals (printer kernels)",
+    "files": ["value/src/lib.rs"],
+    "funcs": ["impl Display for ConstValue", "write_quoted", "write_list (value/src/lib.rs), executed through the real core::fmt machinery into a fixed sink"],
+    "claim": "for EVERY Unicode scalar value c of a class, printing ConstValue::String(c) yields a quoted text whose content is valid GraphQL "
+             "string content denoting exactly c (reference decoder in the harness: escapes, \\uXXXX with hex digits, raw UTF-8); null, "
+             "booleans and one-digit integers print as their tokens",
+    "not_covered": "re-parsing through the real parser (pest), strings of more than one character, lists/objects (a 2-item list does not "
+                   "finish in 10 min), floats and multi-digit integers (std's formatting loops), conversion to JSON and back",
+    "assumptions": [],
+    "harnesses": [
+        H("c15::c15_quote_c0", crate="hv", unwind=6, cls="L", mem_gb=4, timeout_s=600, bounds="every C0 control character U+0000..U+001F"),
+        H("c15::c15_quote_ascii", crate="hv", unwind=6, cls="L", mem_gb=4, timeout_s=600, bounds="every ASCII character U+0020..U+007F"),
+        H("c15::c15_print_scalars", crate="hv", unwind=6, cls="L", mem_gb=4, timeout_s=600, bounds="null, both booleans, integers -9..=9"),
+        H("c15::c15_quote_latin", crate="hv", unwind=6, cls="L", mem_gb=22, timeout_s=1800, tiers=("thorough",), bounds="every 2-byte scalar value U+0080..U+07FF"),
+        H("c15::c15_quote_bmp", crate="hv", unwind=6, cls="L", mem_gb=24, timeout_s=2400, tiers=("thorough",), bounds="every 3-byte scalar value U+0800..U+FFFF"),
+        H("c15::c15_quote_astral", crate="hv", unwind=6, cls="L", mem_gb=24, timeout_s=2400, tiers=("thorough",), bounds="every 4-byte scalar value"),
+    ],
+}
+
+PROPS["C32"] = {
+    "title": "connection cursors round-trip and pagination arguments are checked",
+    "files": ["src/types/connection/cursor.rs", "src/types/connection/mod.rs"],
+    "funcs": ["connection::query_with::<u8, ...> (src/types/connection/mod.rs)", "<T as CursorType>::{encode_cursor, decode_cursor} for u8, i8, u16, i16, bool, char"],
+    "claim": "for every first/last in Option<i32> and every ASCII cursor string of 0..3 bytes (or none) as after or before, query_with "
+             "invokes the page-fetching closure iff first >= 0, last >= 0 and the cursor decodes (reference u8 parser in the harness), "
+             "passes it exactly the decoded values, and otherwise returns an error without invoking it; decode(encode(v)) == v for every "
+             "u8, i8, u16, i16, bool and ASCII char",
+    "not_covered": "wider integers and floats (std's digit/Grisu loops are unbounded for CBMC at full width), String/ID cursors (identity), "
+                   "OpaqueCursor (base64 + serde_json), page info's start/end cursors (async resolver over a Context), both cursors "
+                   "present at once",
+    "assumptions": ["the closure's future is immediately ready (polled once with a no-op waker)"],
+    "harnesses": [
+        H("c32::c32_gate0", crate="hm", unwind=5, stubs=[FMT], bounds="first,last: any Option<i32>; after: none or \"\""),
+        H("c32::c32_gate1", crate="hm", unwind=5, stubs=[FMT], bounds="first,last: any Option<i32>; after: none or any 1-byte ASCII string"),
+        H("c32::c32_gate2", crate="hm", unwind=5, stubs=[FMT], bounds="first,last: any Option<i32>; after: none or any 2-byte ASCII string"),
+        H("c32::c32_gate3", crate="hm", unwind=6, stubs=[FMT], bounds="first,last: any Option<i32>; after: none or any 3-byte ASCII string"),
+        H("c32::c32_gate2_before", crate="hm", unwind=5, stubs=[FMT], bounds="first,last: any Option<i32>; before: none or any 2-byte ASCII string"),
+        H("c32::c32_rt_u8", crate="hm", unwind=6, bounds="every u8"),
+        H("c32::c32_rt_i8", crate="hm", unwind=6, bounds="every i8"),
+        H("c32::c32_rt_u16", crate="hm", unwind=8, bounds="every u16"),
+        H("c32::c32_rt_i16", crate="hm", unwind=8, bounds="every i16", timeout_s=600),
+        H("c32::c32_rt_bool", crate="hm", unwind=7, bounds="both booleans"),
+        H("c32::c32_rt_char_ascii", crate="hm", unwind=6, bounds="every ASCII char"),
+    ],
+}
+
+SLICE = "core::str::slice_error_fail -> panics immediately (same control flow as the original, which only formats the panic message first)"
+_c09 = [H("c09::c09_cons_forwards", crate="hm", unwind=30, stubs=[RS],
+          bounds="callback index any of the 24 Visitor callbacks; composite of 3 recording visitors")]
+for _i in range(9):
+    for _j in range(9):
+        _c09.append(H("c09::c09_type_compat_%d_%d" % (_i, _j), crate="hm", unwind=6, stubs=[SLICE], timeout_s=900,
+                      tiers=("quick", "thorough") if _i == 2 else ("thorough",),
+                      bounds="location type shape #%d x variable type shape #%d of [T, T!, [T], [T]!, [T!], [T!]!, [[T]], [[T]!], [[T!]]!]; "
+                             "both names solver-chosen from two names" % (_i, _j)))
+PROPS["C09"] = {
+    "title": "strict validation = spec (visitor composition and type compatibility kernels)",
+    "files": ["src/validation/visitor.rs", "src/registry/mod.rs", "src/validation/mod.rs"],
+    "funcs": ["VisitorNil::with / VisitorCons (src/validation/visitor.rs) - the combinator check_rules composes all 22 rules with",
+              "MetaTypeName::create, MetaTypeName::is_subtype (src/registry/mod.rs) - the relation VariableInAllowedPosition applies"],
+    "claim": "invoking ANY of the 24 Visitor callbacks (solver-chosen) on the composite VisitorNil.with(a).with(b).with(c) invokes exactly "
+             "that callback exactly once on each member, so every rule composed by check_rules sees every event of the walk; "
+             "location.is_subtype(variable) equals the spec's AreTypesCompatible for every pair of 9 type shapes (up to two list levels, "
+             "all nullability combinations) and every choice of the two names",
+    "not_covered": "the 22 rule visitors themselves and check_rules as a whole (populated registry + HashMaps are outside reach): which "
+                   "documents strict mode rejects is NOT decided beyond these two mechanisms",
+    "assumptions": [],
+    "harnesses": _c09,
+}
+
+_c16 = [H("c16::c16_ser_%s" % t, crate="hv", unwind=4, stubs=[FMT], bounds="every %s" % t) for t in ["i8", "i16", "i32", "i64", "u8", "u16", "u32", "u64"]]
+_c16 += [
+    H("c16::c16_ser_bool_unit_option", crate="hv", unwind=4, stubs=[FMT], bounds="both bools; (); every Option<u8>"),
+    H("c16::c16_ser_f64", crate="hv", unwind=4, stubs=[FMT], bounds="every f64 bit pattern (non-finite -> Null)"),
+    H("c16::c16_ser_f32", crate="hv", unwind=4, stubs=[FMT], bounds="every f32 bit pattern"),
+    H("c16::c16_ser_enum_newtype", crate="hv", unwind=4, stubs=[FMT], bounds="3 unit variants (solver-chosen); newtype struct over every u16"),
+    H("c16::c16_de_bool_unit_option", crate="hv", unwind=4, stubs=[FMT], bounds="both bools, unit, Option<bool> from Null / Boolean"),
+    H("c16::c16_de_wide_numbers", crate="hv", unwind=4, stubs=[FMT], bounds="every i64, every u64, every finite f64 from the Number denoting it"),
+]
+PROPS["C16"] = {
+    "title": "serde values convert to GraphQL values and back (scalar leaves)",
+    "files": ["value/src/serializer.rs", "value/src/deserializer.rs"],
+    "funcs": ["async_graphql_value::to_value / Serializer::serialize_{bool,i8..u64,f32,f64,unit,none,some,unit_variant,newtype_struct}",
+              "async_graphql_value::from_value / ConstValue as Deserializer for bool, (), Option<bool>, i64, u64, f64"],
+    "claim": "to_value(&v) is exactly the ConstValue that denotes v for every v of bool, i8..i64, u8..u64, f32, f64 (non-finite -> Null), (), "
+             "Option<u8>, a 3-variant unit-only enum and a newtype struct over u16; from_value returns the denoted value for bool, (), "
+             "Option<bool>, every i64, every u64 and every finite f64 - for these types the two compose to the round trip",
+    "not_covered": "strings/bytes, maps, sequences, tuples, structs, data-carrying enum variants, nesting, narrow integer targets on the "
+                   "deserializer side (their range-error path builds its message through serde's Error::custom -> to_string, which does not "
+                   "finish); Option<Option<T>>, non-finite floats and char are outside the family the property quantifies over",
+    "assumptions": [],
+    "harnesses": _c16,
+}
+
 NOT_APPLICABLE = {
     "C01": "not yet claimed (leaf serialization kernels planned, see DESIGN.md section 4)",
     "C02": "dynamic execution: every mechanism (collect_fields, resolve) runs on a built dynamic::Schema and its Registry; schema construction alone exceeds what CBMC finishes (Schema::new > 25 min / 9 GB, DESIGN.md section 3)",
@@ -158,5 +292,5 @@ NOT_APPLICABLE = {
     "C34": "GraphiQL page: the oracle is a JavaScript/HTML tokenizer evaluating the generated page; rendering is askama-generated code over fmt with a dependency's HTML escaper",
     "C35": "GET never mutates: behaviour of five web-framework integrations' extractors (axum/actix/poem/warp/rocket request types, async I/O)",
 }
-for _p in ["C06", "C09", "C10", "C12", "C13", "C14", "C15", "C16", "C17", "C21", "C22", "C32", "C33"]:
+for _p in ["C06", "C10", "C12", "C17", "C21", "C22", "C33"]:
     NOT_APPLICABLE.setdefault(_p, "claim under construction in this session (harnesses planned in DESIGN.md section 4); listed here until its check is registered")
